@@ -19,6 +19,7 @@ and calls Harness(...).main(gen, run_case, WITNESSES).  Everything random derive
 one random.Random(seed); every case is a pure function of its ``inp`` so that a replay
 file reproduces it exactly.
 """
+import re
 import argparse, hashlib, json, os, random, signal, sys, time, traceback
 from fractions import Fraction
 
@@ -115,8 +116,9 @@ def outcome(fn, *a, timeout=None, **kw):
 # ----------------------------------------------------------------------------- harness driver
 
 class Harness:
-    def __init__(self, pid, imports, rule, preamble=""):
+    def __init__(self, pid, imports, rule, preamble="", rerun=True):
         self.pid = pid
+        self.rerun = rerun
         self.imports = imports
         self.rule = rule
         self.preamble = preamble
@@ -178,6 +180,33 @@ class Harness:
             hist[r["kind"]] = hist.get(r["kind"], 0) + 1
             r["id"] = i; r["src"] = src; r["input"] = inp
             cases.append(r)
+        # re-execution pass: an answer must be a function of the input alone.  A sample of the cases is run a second
+        # time, in reverse order, after everything else has run in this process; a different answer means that state
+        # leaks between calls (a cache keyed too coarsely, an argument or a shared table modified in place).
+        if not a.replay and self.rerun and os.environ.get("VERIF_RERUN", "1") != "0":
+            pool = [c for c in cases if c["kind"] not in ("witness", "harness-exception") and c.get("rerun", True)]
+            rr = random.Random(a.seed * 7919 + 17)
+            k = min(len(pool), 60 if a.tier == "quick" else 600)
+            for c in sorted(rr.sample(pool, k), key=lambda c: -c["id"]):
+                try:
+                    r2 = run_case(c["input"])
+                except Exception as e:
+                    r2 = dict(chk=None, goal=None, oracle_ok=False, oracle_msg=f"raised {type(e).__name__}: {e}")
+                ng = lambda g: None if g is None else re.sub(r"\b(G|case_)\d+\b", r"\1#", g)   # running counters in goal names
+                a1 = (c["chk"], ng(c["goal"]), c["oracle_ok"])
+                a2 = (r2.get("chk"), ng(r2.get("goal")), bool(r2.get("oracle_ok", True)))
+                hist["rerun"] = hist.get("rerun", 0) + 1
+                if a1 != a2:
+                    what = "chk" if a1[0] != a2[0] else ("goal" if a1[1] != a2[1] else "oracle verdict")
+                    d1, d2 = str(a1[0] if what == "chk" else (a1[1] if what == "goal" else c["oracle_msg"])), \
+                        str(a2[0] if what == "chk" else (a2[1] if what == "goal" else r2.get("oracle_msg")))
+                    j = next((t for t in range(min(len(d1), len(d2))) if d1[t] != d2[t]), min(len(d1), len(d2)))
+                    cases.append(dict(chk=None, goal=None, sig=None, kind="rerun-differs", nontrivial=False, oracle_ok=False,
+                                      oracle_msg=f"the same input (case {c['id']}) gives a different answer when asked again after other calls "
+                                                 f"({what} differs: first ...{d1[max(0, j - 60):j + 80]}... then ...{d2[max(0, j - 60):j + 80]}...): "
+                                                 f"state leaks between calls; reproduce with the whole run (same seed and tier)",
+                                      id=len(cases), src="rerun", input=c["input"]))
+                    hist["rerun-differs"] = hist.get("rerun-differs", 0) + 1
         # shards
         shards = []
         chk_cases = [c for c in cases if c["chk"] is not None]
